@@ -115,8 +115,9 @@ PROPS = {
     'C10': {
         'tests': [tst('probes', 'TestC10Params', 1500, 30000),
                   tst('lifecycle', 'TestC10Inject', 300, 6000),
-                  tst('probes', 'TestC10Prober', 2, 12, qshards=32, tshards=48, timeout_q=300, timeout_t=1200)],
-        'rule': "(1) parameters: the five probe integers from an edge set {0,+-1,2,3,10,65535,65536,+-2^31,+-2^40} or uniform int32, port strings (empty, numeric, out of range, junk), both probe kinds, through ValidateAndSetDefaults and through a full loader.Load: legality predicate + idempotence; (2) coupling, injected outcomes: a probed process (policy in {'',no,always,on_failure} x max_restarts) or a daemon with a liveness probe, 1-10 steps of probe ok / fail / gave-up (fatal), exits, stop: reported health and stop/relaunch compared with the statement after every step, process_healthy dependent launched only after a success; (3) the real Prober against a scripted HTTP target (200 / 500, period 1 s, threshold 1-3): callback ok/fatal sequence vs consecutive-failure count. Non-trivial = an illegal configured value, a script that reaches the threshold or flips ok<->fail; distinct = distinct case JSON",
+                  tst('probes', 'TestC10Prober', 2, 12, qshards=32, tshards=48, timeout_q=300, timeout_t=1200),
+                  tst('osproc', 'TestC10RealGiveUp', 1, 6, qshards=12, tshards=16, timeout_q=300, timeout_t=1200)],
+        'rule': "(1) parameters: the five probe integers from an edge set {0,+-1,2,3,10,65535,65536,+-2^31,+-2^40} or uniform int32, port strings (empty, numeric, out of range, junk), both probe kinds, through ValidateAndSetDefaults and through a full loader.Load: legality predicate + idempotence; (2) coupling, injected outcomes: a probed process (policy in {'',no,always,on_failure} x max_restarts) or a daemon with a liveness probe, 1-10 steps of probe ok / fail / gave-up (fatal), exits, stop: reported health and stop/relaunch compared with the statement after every step, process_healthy dependent launched only after a success; (3) the real Prober against a scripted HTTP target (200 / 500, period 1 s, threshold 1-3): callback ok/fatal sequence vs consecutive-failure count, and silence after a stop inside the initial delay; (4) the unhooked runner with real probes and a real process whose exec probe fails all the time (optionally after one success): one stop-and-relaunch per failure_threshold failures, 2-3 times in a row. Non-trivial = an illegal configured value, a script that reaches the threshold or flips ok<->fail; distinct = distinct case JSON",
         'assumptions': LIFE_ASSUME[:2] + ["success_threshold is documented as not respected and is not asserted", "the real-time prober cases are bounded by the 1 s period; a case whose callbacks do not arrive in time is inconclusive, never a violation"],
     },
     'C19': {
